@@ -238,13 +238,14 @@ func (e *Exec) appendOp(fr *frame, ci ssa.CallInstruction, args []SV, st *State,
 // applyContract replaces a call by the callee's contract.
 func (e *Exec) applyContract(fr *frame, st *State, ci ssa.CallInstruction, callee *ssa.Function, sp *FuncSpec, args []SV, rt types.Type) SV {
 	vars := map[string]SV{}
-	for i, p := range callee.Params {
-		if i < len(args) {
-			a := args[i]
-			a.T = p.Type()
-			vars[p.Name()] = a
+	bindParams(callee, func(i int, p *ssa.Parameter) (SV, bool) {
+		if i >= len(args) {
+			return SV{}, false
 		}
-	}
+		a := args[i]
+		a.T = p.Type()
+		return a, true
+	}, vars)
 	pre := st.clone()
 	env := &specEnv{goal: true, into: st, st: st, old: pre, vars: vars, oldVars: vars, pkg: pkgOf(callee)}
 	cname := fnName(fr.fn)
